@@ -2592,7 +2592,6 @@ setattr_trait(
             PyErr_SetObject(PyExc_AttributeError, name);
         }
         Py_XDECREF(old_value);
-        Py_DECREF(name);
         Py_DECREF(value);
 
         return -1;
